@@ -111,9 +111,16 @@ package flood
 //@ fieldwritesonly[C15] Flooder.cfg: NewFlooder
 //@ note C15: the hop limit read by HandleRouteAdvertise is the one the flooder was built with
 
+//@ ghost var c14fwd int
+
 //@ func (*Flooder).HandleRouteAdvertise
-//@ prop C11 C13 C15
-//@ modifies *
+//@ prop C11 C13 C14 C15
+//@ modifies *, c14fwd
+//@ ghostinit c14fwd = 0
+//@ after call floodAdvertisementEncrypted set c14fwd = c14fwd + 1
+//@ ensures[C14] result ==> c14fwd == 1
+//@ ensures[C14] !wasSeen && !looped && f.cfg.MaxHops <= 0 ==> result
+//@ note C14: an advertisement that is new (not in the seen cache) and has not passed through this agent is always handed on (stated for the configuration without hop limit; with a limit the only other exit is the hop check), and a true result means it was handed on exactly once, whatever the routing tables did with it
 //@ check lockset
 //@ after call Lock#0 let wasSeen = exists k AdvertisementKey: k.OriginAgent == originAgent && k.Sequence == sequence && has(f.seenCache, k)
 //@ after call containsAgent let looped = $ret
@@ -170,3 +177,91 @@ package flood
 //@ at call (*RouteAdvertise).Encode assert $0.OriginAgent == originAgent && $0.Sequence == sequence && $0.SeenBy == seenBy
 //@ at[C13] call (*RouteAdvertise).Encode assert encPath != nil && !encPath.Encrypted ==> $0.EncPath != nil && $0.EncPath != encPath && !$0.EncPath.Encrypted
 //@ at call floodFrame assert $1 == fromPeer && $2 == seenBy
+//@ at[C06] call (*RouteAdvertise).Encode assert len(routes) <= 255 ==> len($0.Routes) <= 255
+
+// ---- C06: the announced route set is exactly the local (or stored) set, in messages whose one-byte
+// route count cannot wrap ----
+
+//@ func ipNetToProtocolRoute
+//@ prop C06
+//@ ensures result.Metric == metric && result.Prefix == network.IP
+//@ ensures result.PrefixLength == maskOnes(network.Mask) % 256 && result.AddressFamily == ite(maskBits(network.Mask) == 128, 2, 1)
+
+//@ func routeToProtocol
+//@ prop C06
+//@ ensures result.Metric == route.Metric && result.Prefix == route.Network.IP
+//@ ensures result.PrefixLength == maskOnes(route.Network.Mask) % 256 && result.AddressFamily == ite(maskBits(route.Network.Mask) == 128, 2, 1)
+
+//@ func (*Flooder).AnnounceLocalRoutes
+//@ prop C06 C11 C13 C14
+//@ modifies *
+//@ loop 0 invariant -1 <= rangeindex && rangeindex < len(localRoutes) && len(routes) == rangeindex + 1
+//@ loop 0 invariant forall i in 0..rangeindex+1: routes[i].Metric == localRoutes[i].Metric && routes[i].Prefix == localRoutes[i].Network.IP && routes[i].PrefixLength == maskOnes(localRoutes[i].Network.Mask) % 256 && routes[i].AddressFamily == ite(maskBits(localRoutes[i].Network.Mask) == 128, 2, 1)
+//@ loop 1 invariant -1 <= rangeindex && rangeindex < len(localDomainRoutes) && len(routes) == len(localRoutes) + rangeindex + 1
+//@ loop 1 invariant forall i in 0..rangeindex+1: routes[len(localRoutes) + i].Metric == localDomainRoutes[i].Metric && routes[len(localRoutes) + i].AddressFamily == 3 && routes[len(localRoutes) + i].PrefixLength == ite(localDomainRoutes[i].IsWildcard, 1, 0)
+//@ loop 2 invariant -1 <= rangeindex && rangeindex < len(localForwardRoutes) && len(routes) == len(localRoutes) + len(localDomainRoutes) + rangeindex + 1
+//@ loop 2 invariant forall i in 0..rangeindex+1: routes[len(localRoutes) + len(localDomainRoutes) + i].Metric == localForwardRoutes[i].Metric && routes[len(localRoutes) + len(localDomainRoutes) + i].AddressFamily == 4
+//@ after call IncrementSequence let seq = $ret
+//@ after call EncodePath let pathBytes = $ret
+//@ at[C13] call EncodePath assert len($0) == 1 && $0[0] == f.localID
+//@ loop 3 invariant 0 <= start && start % 255 == 0 && len(routes) == len(localRoutes) + len(localDomainRoutes) + len(localForwardRoutes) + 1
+//@ at[C06] call (*RouteAdvertise).Encode assert 1 <= len($0.Routes) && len($0.Routes) <= 255 && len($0.Routes) == ite(len(routes) - start < 255, len(routes) - start, 255)
+//@ at[C06] call (*RouteAdvertise).Encode assert base($0.Routes) == base(routes) && offset($0.Routes) == offset(routes) + start
+//@ note C06: the messages carry the consecutive windows routes[0:255], routes[255:510], ... of the list built above (same backing array), each with at most 255 routes, together covering the list exactly once
+//@ at[C14] call (*RouteAdvertise).Encode assert $0.OriginAgent == f.localID && $0.Sequence == seq
+//@ at[C11,C13] call (*RouteAdvertise).Encode assert len($0.SeenBy) == 1 && $0.SeenBy[0] == f.localID && $0.EncPath != nil && !$0.EncPath.Encrypted && $0.EncPath.Data == pathBytes
+//@ note an origin announces with path [self] and seen-by [self], its own identity and a sequence number freshly taken from its own counter for each message
+
+//@ func (*Flooder).WithdrawLocalRoutes
+//@ prop C06
+//@ modifies *
+//@ loop 0 invariant -1 <= rangeindex && rangeindex < len(localRoutes) && len(routes) == rangeindex + 1
+//@ loop 0 invariant forall i in 0..rangeindex+1: routes[i].Metric == localRoutes[i].Metric && routes[i].Prefix == localRoutes[i].Network.IP && routes[i].PrefixLength == maskOnes(localRoutes[i].Network.Mask) % 256 && routes[i].AddressFamily == ite(maskBits(localRoutes[i].Network.Mask) == 128, 2, 1)
+//@ loop 1 invariant 0 <= start && start % 255 == 0 && len(routes) == len(localRoutes)
+//@ at call (*RouteWithdraw).Encode assert 1 <= len($0.Routes) && len($0.Routes) <= 255 && len($0.Routes) == ite(len(routes) - start < 255, len(routes) - start, 255)
+//@ at call (*RouteWithdraw).Encode assert base($0.Routes) == base(routes) && offset($0.Routes) == offset(routes) + start && $0.OriginAgent == f.localID
+
+//@ func (*Flooder).SendFullTable
+//@ prop C06 C14
+//@ modifies *
+//@ after call IncrementSequence let seq = $ret
+//@ loop 13 invariant 0 <= start && start % 255 == 0
+//@ at[C06] call (*RouteAdvertise).Encode assert 1 <= len($0.Routes) && len($0.Routes) <= 255 && len($0.Routes) == ite(len(routes) - start < 255, len(routes) - start, 255)
+//@ at[C06] call (*RouteAdvertise).Encode assert base($0.Routes) == base(routes) && offset($0.Routes) == offset(routes) + start
+//@ at[C14] call (*RouteAdvertise).Encode assert $0.OriginAgent == originAgent && $0.Sequence == seq && len($0.SeenBy) == 1 && $0.SeenBy[0] == f.localID
+//@ at[C14] call (*RouteAdvertise).Encode assert originAgent != f.localID ==> (len(cidrRoutes) > 0 && $0.Sequence == cidrRoutes[0].Sequence) || (len(agentPresenceRoutes) > 0 && $0.Sequence == agentPresenceRoutes[0].Sequence) || (len(forwardOriginRoutes) > 0 && $0.Sequence == forwardOriginRoutes[0].Sequence) || (len(domainOriginRoutes) > 0 && $0.Sequence == domainOriginRoutes[0].Sequence)
+//@ note C14: a replayed advertisement for another agent's routes must carry a sequence number that agent issued (the one stored with its routes); the last guard states that and is a recorded known finding: the replay is stamped with the replaying agent's own counter
+//@ note C13 for replays (sent metric == stored metric, path == self :: stored path of the same route) is not under contract here
+
+// ---- C11: withdrawals take the same seen-cache / seen-by gate; the seen cache keeps what it must ----
+
+//@ func (*Flooder).HandleRouteWithdraw
+//@ prop C11
+//@ modifies *
+//@ check lockset
+//@ after call Lock#0 let wasSeen = exists k AdvertisementKey: k.OriginAgent == originAgent && k.Sequence == sequence && has(f.seenCache, k)
+//@ after call containsAgent let looped = $ret
+//@ at call containsAgent assert $0 == seenBy && $1 == f.localID
+//@ ensures wasSeen ==> !result
+//@ ensures result ==> !looped
+//@ at call Unlock#1 assert forall k AdvertisementKey: k.OriginAgent == originAgent && k.Sequence == sequence ==> has(f.seenCache, k)
+//@ at call ProcessRouteWithdraw assert !wasSeen && !looped && $1 == originAgent
+//@ at call floodWithdrawal assert !wasSeen && !looped && $1 == fromPeer && $2 == originAgent && $3 == sequence && $4 == routes
+//@ at call floodWithdrawal assert len($5) == len(seenBy) + 1 && $5[len(seenBy)] == f.localID && forall j in 0..len(seenBy): $5[j] == seenBy[j]
+
+//@ func (*Flooder).floodWithdrawal
+//@ prop C11
+//@ modifies *
+//@ at call (*RouteWithdraw).Encode assert $0.OriginAgent == originAgent && $0.Sequence == sequence && $0.SeenBy == seenBy && $0.Routes == routes
+//@ at call floodFrame assert $1 == fromPeer && $2 == seenBy
+
+//@ func (*Flooder).cleanupSeenCache
+//@ prop C11
+//@ modifies *
+//@ requires held(f.mu)
+//@ check lockset
+//@ loop 0 invariant forall k AdvertisementKey: old(has(f.seenCache, k)) && now - old(f.seenCache[k].SeenAt) <= expiry ==> has(f.seenCache, k)
+//@ loop 0 invariant forall k AdvertisementKey: has(f.seenCache, k) ==> old(has(f.seenCache, k)) && f.seenCache[k] == old(f.seenCache[k])
+//@ loop 0 invariant f.seenCache == old(f.seenCache)
+//@ ensures forall k AdvertisementKey: old(has(f.seenCache, k)) && now - old(f.seenCache[k].SeenAt) <= expiry ==> has(f.seenCache, k)
+//@ note an advertisement recorded less than the TTL ago must still be recognised as a duplicate after a cleanup
